@@ -42,6 +42,14 @@ def gen_deflate(tier, rng):
                     bound = n + 5 * max(1, (n + 65534) // 65535) + 18
                     add(api="deflate_stateless", inp=inp, level=level, wrap=wrap, lbuf=[3, 0, 5][k % 3] if level == 1 else [3, 0][k % 2], calls=[[n, bound + extra, [0, 2][k % 2], 1]],
                         meta={"family": "oneshot-guarded"})
+    # a level buffer that does not start on an aligned address (no alignment is documented for level_buf): streaming with full flushes (the
+    # match history is re-initialised in the middle of the stream) and several one-shot FULL_FLUSH pieces on one context
+    for cls, n in [("text", 6000), ("records", 30000)]:
+        inp = igz.corpus(rng, cls, n)
+        for level in range(4):
+            for lb in (7, 8, 9, 10):
+                add(api="deflate", inp=inp, level=level, wrap=[0, 1, 3][(level + lb) % 3], lbuf=lb, mem=(level + lb) % 3, prefill=lb % 3,
+                    calls=[[n // 3, 1 << 17, 2, 0], [n // 3, 1 << 17, [2, 1, 0][lb % 3], 0], [n, 1 << 17, 0, 1]], tail_ai=n, tail_ao=1 << 17, cap=60, meta={"family": "unaligned-level-buffer"})
     return scns
 
 def gen_inflate(tier, rng):
